@@ -21,10 +21,10 @@ VERIF = os.path.dirname(os.path.dirname(os.path.abspath(__file__)))
 
 
 def one(args):
-    sid, tier, repo = args
+    sid, tier, repo = args[:3]
     d = os.path.join(VERIF, "seeded", sid)
     meta = json.load(open(os.path.join(d, "meta.json")))
-    prop = meta.get("check", meta["property"])  # the check that detects it, when it is not the property the seed was written for
+    prop = (args[3] if len(args) > 3 and args[3] else None) or meta.get("check", meta["property"])  # the check that detects it, when it is not the property the seed was written for
     tmp = tempfile.mkdtemp(prefix="seedsweep_")
     try:
         dst = os.path.join(tmp, "repo")
@@ -48,11 +48,12 @@ def main():
     ap.add_argument("--tier", default="quick")
     ap.add_argument("--jobs", type=int, default=2)
     ap.add_argument("--repo", default="/repo")
+    ap.add_argument("--check", default=None, help="run this check instead of the one named in meta.json")
     a = ap.parse_args()
     ids = a.ids or sorted(x for x in os.listdir(os.path.join(VERIF, "seeded")) if os.path.exists(os.path.join(VERIF, "seeded", x, "meta.json")))
     bad = 0
     with ThreadPoolExecutor(a.jobs) as ex:
-        for sid, prop, st, info in ex.map(one, [(i, a.tier, a.repo) for i in ids]):
+        for sid, prop, st, info in ex.map(one, [(i, a.tier, a.repo, a.check) for i in ids]):
             print("%-6s %s %-12s %s" % (sid, prop, st, info), flush=True)
             bad += st != "detected"
     print("%d seeds, %d not detected" % (len(ids), bad))
